@@ -17,9 +17,31 @@ pub fn liveness_violation(s: &Session, h: &History) -> Option<Violation> {
         return None;
     }
     if let Some(d) = &h.deadlock {
+        // requests handed over completely and not answered
+        let answered = h.responses();
+        let mut in_flight = 0usize;
+        for e in &h.events {
+            if let Ev::Sent { op, .. } = e {
+                if let Op::Request { id, .. } = &s.ops[*op].op {
+                    if !answered.contains_key(id) {
+                        in_flight += 1;
+                    }
+                }
+            }
+        }
+        if h.main_final == "Parked@idle" && h.unread_input > 0 && in_flight >= s.concurrency {
+            return Some(Violation {
+                oracle: "liveness.main_loop_keeps_reading".into(),
+                kinds: vec!["requests_in_flight_reach_concurrency_limit".into()],
+                detail: format!(
+                    "{in_flight} requests are in flight with a concurrency limit of {}; the main loop sits idle, never reads the remaining {} bytes of input and answers nothing any more ({d})",
+                    s.concurrency, h.unread_input
+                ),
+            });
+        }
         return Some(Violation {
             oracle: "liveness.no_deadlock".into(),
-            kinds: vec!["deadlock".into()],
+            kinds: vec!["deadlock".into(), format!("main.{}", h.main_final)],
             detail: format!("no thread can move and the server does not drain even with every hook passing through: {d}"),
         });
     }
